@@ -32,7 +32,7 @@ def run(ctx):
     else:
         big = {"MaxRows = 3": "MaxRows = 4", "MaxRowsM = 2": "MaxRowsM = 3", "Takes <- TakesQuick": "Takes <- TakesSome",
                "Shapes <- ShapesQuick": "Shapes <- ShapesFull", "XKs <- XKsQuick": "XKs <- XKsAll"}
-        runs = [("rows4-" + s, dict(big, **{"Srcs <- AllSrcs": 'Srcs <- {%s}' % ", ".join('"%s"' % x for x in grp)}))
+        runs = [("rows4-" + s, dict(big, **{"Srcs <- AllSrcs": 'Srcs = {%s}' % ", ".join('"%s"' % x for x in grp)}))
                 for s, grp in (("obj", ["xy", "rows"]), ("rowsH", ["rowsH"]), ("sparse", ["sparse"]), ("csv", ["csv", "csvH"]),
                                ("arff", ["arff"]), ("sp-text", ["arffS", "libsvm", "manik"]))]
         runs.append(("takes3", {"Takes <- TakesQuick": "Takes <- TakesFull", "XKs <- XKsQuick": "XKs <- XKsAll"}))
